@@ -524,8 +524,8 @@ func MapKeys[K comparable, V any](m map[K]V, site string) []K {
 //
 // A stateless explorer must start every execution from the same state. The instrumenter registers
 // every package-level variable of the library (RegisterGlobal runs during package initialisation,
-// after the variable's own initialiser); ResetGlobals puts each back to a copy of the value it had
-// then. Maps, slices and arrays are copied in depth, everything else by assignment (pointers,
+// after the variable's own initialiser); the first ResetGlobals call, made before any execution, records
+// the values as the initial state and every later call puts them back. Maps, slices and arrays are copied in depth, everything else by assignment (pointers,
 // interfaces, functions and channels keep their identity: sentinel errors must stay comparable).
 
 type global struct {
@@ -571,12 +571,22 @@ func copyValue(v reflect.Value) reflect.Value {
 // can be used as the initialiser of a blank variable.
 func RegisterGlobal(name string, ptr interface{}) bool {
 	p := reflect.ValueOf(ptr)
-	globals = append(globals, global{name: name, ptr: p, init: copyValue(p.Elem())})
+	globals = append(globals, global{name: name, ptr: p})
 	return true
 }
 
+var globalsFrozen bool
+
 // ResetGlobals restores every registered variable to (a fresh copy of) its initial value.
 func ResetGlobals() {
+	if !globalsFrozen {
+		// first call, before any execution: package initialisation (including init functions) is
+		// complete, the values found now are the initial state
+		globalsFrozen = true
+		for i := range globals {
+			globals[i].init = copyValue(globals[i].ptr.Elem())
+		}
+	}
 	for _, g := range globals {
 		g.ptr.Elem().Set(copyValue(g.init))
 	}
